@@ -17,6 +17,7 @@ mod c18loop;
 mod c13l2;
 mod c11l2;
 mod c05l2;
+mod c03l2;
 mod c19;
 mod consts;
 mod core;
@@ -101,6 +102,7 @@ fn main() {
         "c13l2" => c13l2::run(&a),
         "c11l2" => c11l2::run(&a),
         "c05l2" => c05l2::run(&a),
+        "c03l2" => c03l2::run(&a),
         "c19" => c19::run(&a),
         "c06core" => coregen::run(&a, "C06", "C06core", &["c06"]),
         "c18core" => coregen::run(&a, "C18", "CoreMix", &["c18"]),
